@@ -52,6 +52,13 @@ RULE = ("corpus/C09 hand seeds first; join: 2-5 generated inputs (1-6 events "
         "writer.CHUNK_SIZE_BYTES = 512..2048 and 4-40 events per input with "
         "image (mask, trace) data, so that appended blocks straddle HDF5 chunk "
         "boundaries (c-1, c, c+1 events); "
+        "audit round: boundary images that are entirely zero / partially "
+        "zero / zero but one pixel, first contours entirely zero or touching "
+        "0, masks without stored contour (also in the corner), 4% malformed "
+        "dates/times, 2% single inputs, 8% equal time with descending run "
+        "indices, 6% non-dyadic fractions (oracle only), tables in 30% of "
+        "the inputs, differing trace channel sets, 45% of the joinsplit "
+        "cases with dclab-split's default skip flags; "
         "joinsplit: the parts of a split, renamed to words that are not in "
         "alphabetical order, joined in the order of the split; pysem: the Python "
         "semantics of Common/PyList.v (mutating loop, loop over a copy, str "
@@ -90,8 +97,16 @@ ASSUMPTIONS = [
     "are compared after the writer's unsigned coercion (the 2fl fixture has "
     "fl2_max = -20, stored as 0 by RTDCWriter: an observation for C01/C08, "
     "not judged here)",
-    "contours generated for split are innate and never all-zero (the "
-    "contour branch of skip_empty_image_events is not triggered)",
+    "masks generated for split are non-empty rectangles (an empty or "
+    "single-pixel first mask makes dclab raise NoValidContourFoundError, a "
+    "BaseException: invalid input, not judged); dclab-split on tdms input is "
+    "not exercised (the image fixtures hold truncated videos)",
+    "date/time strings: strict two-digit fields are well-formed; the lenient "
+    "forms strptime also accepts ('2024-3-5', '1:02:03', second 60) are not "
+    "generated; a malformed date/time or a single input must raise ValueError "
+    "and leave no file",
+    "fractions of a second that are no multiples of 1/8 s, and inputs with "
+    "different trace channels, are judged by the oracle only (no model run)",
 ]
 
 FIND_EMPTY_PART = "C09-split-empty-part"
@@ -102,6 +117,7 @@ UNIVERSE = sorted([
     "mask", "pos_x", "pos_y", "size_x", "size_y", "tilt", "time", "trace",
     "userdef1", "userdef2"])
 NONSCALAR = ("image", "mask", "contour", "trace")
+TRACE_KEYS = ["fl1_raw", "fl1_median", "fl2_raw"]
 SAMPLES = ["verif sample", "beads 5um", "blood 1:20", "HL60 ctl"]
 TDMS_FIXTURES = ["fmt-tdms_shapein-2.0.1-no-image_2017",
                  "fmt-tdms_2fl-no-image_2017"]
@@ -115,7 +131,16 @@ IMG_SHAPE = (6, 9)
 DATES = ["2024-03-05", "2024-03-05", "2024-03-05", "2024-03-05", "2024-03-04",
          "2024-03-06", "2024-02-29", "2024-03-01", "2023-12-31", "2024-01-01"]
 FRACS = ["", "", "", ".000", ".125", ".25", ".375", ".5", ".50", ".500",
-         ".625", ".75", ".875"]
+         ".625", ".75", ".875", ".1250", ".375000", ".500000"]
+# not multiples of 1/8 s: outside the model (oracle only)
+FRACS_NOMODEL = [".0625", ".123456", ".1", ".999999", ".03125"]
+MALFORMED = [("2024-03-05", "12:00"), ("2024-13-05", "12:00:00"),
+             ("2024-03-05", "24:00:00"), ("2024-03-05", "12:0x:00"),
+             ("2024-03-05", "12:00:00."), ("2024-02-30", "12:00:00"),
+             ("2023-02-29", "12:00:00"), ("2024-03-05", "12:00:00,5"),
+             ("2024-03-05", "12:61:00"), ("2024/03/05", "12:00:00"),
+             ("2024-03-05", "12-00-00"), ("20240305", "12:00:00"),
+             ("2024-03-05", "12:00:00.5x")]
 RUNS = [1, 1, 1, 2, 3, 9, 10, 11, 100]
 RATES = [0.125, 0.5, 1.0, 2.0, 2.5, 4.0, 8.0, 2000.0]
 RATES_DYADIC_TIME = [0.5, 1.0, 2.0, 4.0, 8.0]      # frame / rate is k/8
@@ -190,8 +215,14 @@ def gen_input(rng, names, n, date, tm, run, rate, logs=True):
         for name in rng.sample(LOGNAMES, rng.choice([0, 1, 1, 2])):
             lg[name] = ["%s line %d" % (name, rng.randint(0, 999))
                         for _ in range(rng.randint(1, 3))]
+    tabs = {}
+    if logs and rng.random() < 0.3:
+        rows = rng.randint(1, 4)
+        tabs[rng.choice(["tab", "cal"])] = {
+            "alpha": [rng.randint(-50, 50) / 4 for _ in range(rows)],
+            "beta": [float(rng.randint(0, 1000)) for _ in range(rows)]}
     return dict(date=date, time=tm, run=run, rate=rate, n=n, feats=feats,
-                logs=lg, sample=rng.choice(SAMPLES))
+                logs=lg, sample=rng.choice(SAMPLES), tables=tabs)
 
 
 CHUNK_BYTES = [512, 512, 1024, 2048]
@@ -202,7 +233,7 @@ CHUNKY_N = [4, 5, 9, 10, 11, 15, 17, 18, 19, 20, 21, 22, 25, 36, 37, 38]
 
 def gen_join_case(rng, thorough=False):
     chunky = rng.random() < 0.3
-    k = rng.choice([2, 2, 3] if chunky else [2, 2, 3, 3, 4, 5])
+    k = rng.choice([2, 2, 3] if chunky else [2, 2, 3, 3, 4, 5, 5, 7])
     pool = [f for f in UNIVERSE if f not in NONSCALAR]
     base = set(rng.sample(pool, rng.randint(2, 4) if chunky
                           else rng.randint(3, 8)))
@@ -262,13 +293,67 @@ def gen_join_case(rng, thorough=False):
         for i in grp[1:]:
             inputs[i].update(date=src["date"], time=src["time"],
                              run=src["run"])
+    # same time, different run index, given in descending run order
+    if rng.random() < 0.08:
+        src = inputs[0]
+        runs = sorted(rng.sample([1, 2, 3, 9, 10, 11, 100], k), reverse=True)
+        for inp, r in zip(inputs, runs):
+            inp.update(date=src["date"], time=src["time"], run=r)
     for inp, nm in zip(inputs, gen_names(rng, k)):
         inp["fname"] = nm
     case = dict(kind="join", inputs=inputs)
+    r = rng.random()
+    if r < 0.04:
+        # a date/time that strptime/float reject: ValueError expected
+        bad = rng.choice(MALFORMED)
+        inputs[rng.randrange(k)].update(date=bad[0], time=bad[1])
+    elif r < 0.06:
+        case["inputs"] = inputs[:1]          # a single input: ValueError
+    elif r < 0.12:
+        # fractions that are no multiples of 1/8 s: oracle only
+        for inp in inputs:
+            if rng.random() < 0.7:
+                inp["time"] = inp["time"][:8] + rng.choice(FRACS_NOMODEL)
+        case["nomodel"] = True
+    if "trace" in base and rng.random() < 0.4:
+        # the inputs do not record the same trace channels
+        for inp in case["inputs"]:
+            inp["trace_keys"] = sorted(rng.sample(TRACE_KEYS, rng.randint(1, 3)))
     if chunky:
         # small HDF5 chunks: appended blocks straddle chunk boundaries
         case["chunk_bytes"] = rng.choice(CHUNK_BYTES)
     return case
+
+
+def boundary_seeds(rng, inp):
+    """all-zero / partially-zero / zero-free first, last and inner images,
+    first contours that are all-zero or touch 0, masks in the corner"""
+    n = inp["n"]
+    feats = inp["feats"]
+
+    def pick():
+        r = rng.random()
+        if r < 0.3:
+            return 0
+        if r < 0.65:
+            return -rng.randint(1, 10 ** 4)
+        return None
+    if "image" in feats:
+        for pos in {0, n - 1}:
+            v = pick()
+            if v is not None:
+                feats["image"][pos] = v
+        if n > 2 and rng.random() < 0.3:
+            feats["image"][rng.randrange(1, n - 1)] = rng.choice(
+                [0, -rng.randint(1, 999)])
+    if "contour" in feats:
+        v = pick()
+        if v is not None:
+            feats["contour"][0] = v
+        if rng.random() < 0.3:
+            feats["contour"][-1] = rng.choice([0, -rng.randint(1, 999)])
+    if "mask" in feats and rng.random() < 0.5:
+        feats["mask"][0] = -rng.randint(1, 99)
 
 
 def gen_split_case(rng, thorough=False):
@@ -282,20 +367,17 @@ def gen_split_case(rng, thorough=False):
     with_img = rng.random() < 0.6
     if with_img:
         names.add("image")
-    if rng.random() < 0.35:
-        names.update(["mask", "contour"])     # contour innate: not computed
+    r = rng.random()
+    if r < 0.3:
+        names.update(["mask", "contour"])     # contour stored
+    elif r < 0.45:
+        names.add("mask")                     # contour computed from the mask
     if rng.random() < 0.3:
         names.add("trace")
     inp = gen_input(rng, names, n, "2024-03-05", "12:10:11", 1,
                     rng.choice(RATES_DYADIC_TIME))
     inp["feats"]["userdef1"] = [float(i) for i in range(n)]   # event tag
-    if with_img:
-        if rng.random() < 0.45:
-            inp["feats"]["image"][0] = 0
-        if rng.random() < 0.45:
-            inp["feats"]["image"][-1] = 0
-        if n > 2 and rng.random() < 0.2:
-            inp["feats"]["image"][rng.randrange(1, n - 1)] = 0
+    boundary_seeds(rng, inp)
     initial = rng.random() < 0.7
     final = rng.random() < 0.7
     case = dict(kind="split", input=inp, k=k, initial=initial, final=final)
@@ -332,6 +414,10 @@ def gen_joinsplit_case(rng, thorough=False):
     nparts = -(-n // k)
     case = dict(kind="joinsplit", input=inp, k=k,
                 rename=gen_names(rng, min(nparts, len(NAME_WORDS))))
+    if rng.random() < 0.45:
+        # dclab-split's defaults: skip empty boundary images
+        case["initial"] = case["final"] = True
+        boundary_seeds(rng, inp)
     if chunky:
         case["chunk_bytes"] = rng.choice(CHUNK_BYTES)
     return case
@@ -341,28 +427,51 @@ def gen_joinsplit_case(rng, thorough=False):
 # building files, reading them back
 # --------------------------------------------------------------------------
 def image_of(seed):
+    """seed 0: all pixels zero; seed < 0: some pixels zero (a block incl. the
+    corner, or a single pixel) but not all; seed > 0: no zero pixel"""
     import numpy as np
     if seed == 0:
         return np.zeros(IMG_SHAPE, dtype=np.uint8)
     a = (np.arange(IMG_SHAPE[0] * IMG_SHAPE[1], dtype=np.int64) * 37
-         + seed * 101) % 251 + 1
-    return a.reshape(IMG_SHAPE).astype(np.uint8)
+         + abs(seed) * 101) % 251 + 1
+    a = a.reshape(IMG_SHAPE).astype(np.uint8)
+    if seed < 0:
+        if seed % 3 == 0:
+            a[abs(seed) % IMG_SHAPE[0], abs(seed) % IMG_SHAPE[1]] = 0
+        elif seed % 3 == 1:
+            a[:IMG_SHAPE[0] // 2, :] = 0
+        else:
+            a[:, :] = 0
+            a[-1, -1] = 7            # a single non-zero pixel
+    return a
 
 
 def mask_of(seed):
-    """a filled rectangle (never empty) that depends on the seed"""
+    """a filled rectangle (never empty) that depends on the seed; seed < 0:
+    in the corner (the computed contour touches x = 0 and y = 0)"""
     import numpy as np
     m = np.zeros(IMG_SHAPE, dtype=bool)
-    y0, x0 = seed % 3, (seed // 3) % 4
+    if seed < 0:
+        m[0:2 + abs(seed) % 2, 0:2 + abs(seed) % 3] = True
+        return m
+    y0, x0 = 1 + seed % 2, 1 + (seed // 3) % 3
     m[y0:y0 + 2 + seed % 2, x0:x0 + 2 + (seed // 7) % 3] = True
     return m
 
 
 def contour_of(seed):
+    """seed 0: all coordinates zero; seed < 0: some coordinates zero (the
+    contour touches x = 0 or y = 0); seed > 0: coordinates >= 1"""
     import numpy as np
-    k = 3 + seed % 5
-    pts = [[1 + (seed * (i + 3)) % 7, 1 + (seed // (i + 1)) % 5]
-           for i in range(k)]
+    if seed == 0:
+        return np.zeros((3, 2), dtype=np.int32)
+    q = abs(seed)
+    k = 3 + q % 5
+    pts = [[1 + (q * (i + 3)) % 7, 1 + (q // (i + 1)) % 5] for i in range(k)]
+    if seed < 0:
+        pts[0][q % 2] = 0
+        if q % 3 == 0:
+            pts = [[0, 0]] * (k - 1) + [[0, 2]]   # one non-zero coordinate
     return np.array(pts, dtype=np.int32)
 
 
@@ -384,8 +493,9 @@ def write_input(path, inp):
         elif f == "contour":
             feats[f] = [contour_of(s) for s in vals]
         elif f == "trace":
-            feats[f] = {"fl1_raw": np.array([trace_of(s, 0) for s in vals]),
-                        "fl1_median": np.array([trace_of(s, 1) for s in vals])}
+            keys = inp.get("trace_keys", ["fl1_raw", "fl1_median"])
+            feats[f] = {k: np.array([trace_of(s, TRACE_KEYS.index(k))
+                                     for s in vals]) for k in keys}
         elif f == "frame":
             feats[f] = np.array(vals, dtype=np.uint64)
         elif f in ("index_online", "index"):
@@ -398,7 +508,8 @@ def write_input(path, inp):
                                "sample": inp.get("sample", SAMPLES[0])})
     meta["imaging"]["frame rate"] = inp["rate"]
     spec = dict(n=inp["n"], features=feats, meta=meta)
-    gen.write_spec(path, spec, logs=inp["logs"])
+    gen.write_spec(path, spec, logs=inp["logs"],
+                   tables=inp.get("tables") or None)
     return path
 
 
@@ -425,8 +536,11 @@ def enc_values(feat, arr):
             for i in range(len(arr))]
     if feat == "trace":
         keys = sorted(arr.keys())
-        n = len(arr[keys[0]]) if keys else 0
         data = {k: np.asarray(arr[k][:], dtype=np.int64) for k in keys}
+        if len(set(len(v) for v in data.values())) > 1:
+            raise ValueError("trace channels of unequal length %s" % {
+                k: len(v) for k, v in data.items()})
+        n = len(data[keys[0]]) if keys else 0
         return [zlib.crc32(b"".join(k.encode() + data[k][i].tobytes()
                                     for k in keys)) for i in range(n)]
     a = np.asarray(arr[:])
@@ -463,8 +577,32 @@ def read_dataset(path):
         logs = {k: list(ds.logs[k]) for k in ds.logs.keys()}
         n = len(ds)
         sample = ds.config["experiment"].get("sample", "")
+        tables = {k: table_dict(ds.tables[k]) for k in ds.tables.keys()}
+        tkeys = sorted(ds["trace"].keys()) if "trace" in innate else []
     return dict(innate=innate, avail=avail, cols=cols, raw=raw, logs=logs, n=n,
-                sample=sample)
+                sample=sample, tables=tables, trace_keys=tkeys)
+
+
+def table_dict(tab):
+    """a table as {column: list of floats}"""
+    import numpy as np
+    from . import gen
+    arr = gen.table_array(tab)
+    if arr.dtype.names:
+        return {c: [float(v) for v in np.asarray(arr[c]).ravel()]
+                for c in arr.dtype.names}
+    return {"": [float(v) for v in np.asarray(arr).ravel()]}
+
+
+def tables_retained(outtabs, prefix, intabs):
+    """None if every input table is in the output under prefix+name with the
+    same columns and values"""
+    for name, cols in intabs.items():
+        if prefix + name not in outtabs:
+            return "table %s not retained (as %s)" % (name, prefix + name)
+        if outtabs[prefix + name] != cols:
+            return "table %s changed" % name
+    return None
 
 
 def feature_array(ds, f):
@@ -538,8 +676,10 @@ def encode_joined(path_out, order):
             flat += [FID.get(f, 10 ** 7), len(vals)] + vals
         # logs the model does not know (e.g. dclab-join-warnings-#i, or a
         # log added by a later dclab version) are not part of the property
+        # ... nor is the log export.hdf5 writes for the first input (an
+        # internal: the model lists it, the comparison drops it on both sides)
         logs = sorted(p for p in (enc_logname(k) for k in ds.logs.keys())
-                      if p != (0, 999))
+                      if p not in ((0, 999), (0, 0)))
         flat += [len(logs)]
         for a, b in logs:
             flat += [a, b]
@@ -553,7 +693,30 @@ def encode_joined(path_out, order):
     return flat
 
 
-ERRCODE = {"KeyError": 1, "OverflowError": 2}
+ERRCODE = {"KeyError": 1, "OverflowError": 2, "ValueError": 3}
+FIND_TRACE_KEYS = "C09-join-trace-channels-differ"
+
+
+def strict_datetime_ok(date, tm):
+    """is (date, time) a 'YYYY-MM-DD', 'HH:MM:SS[.digits]' pair of an existing
+    calendar day/time? (independent of strptime)"""
+    import re
+    m = re.match(r"^(\d{4})-(\d{2})-(\d{2})$", date)
+    t = re.match(r"^(\d{2}):(\d{2}):(\d{2})(\.\d+)?$", tm)
+    if not m or not t:
+        return False
+    try:
+        datetime.date(int(m.group(1)), int(m.group(2)), int(m.group(3)))
+    except ValueError:
+        return False
+    return int(t.group(1)) < 24 and int(t.group(2)) < 60 and \
+        int(t.group(3)) < 60
+
+
+def trace_keys_differ(infos):
+    ks = [tuple(i.get("trace_keys", [])) for i in infos
+          if "trace" in i["innate"]]
+    return len(set(ks)) > 1
 
 
 # --------------------------------------------------------------------------
@@ -569,6 +732,16 @@ def join_oracle(inputs, infos, order_impl_unused, path_out, exc,
     import numpy as np
     import dclab
     k = len(inputs)
+    bad = [i for i in inputs if not strict_datetime_ok(i["date"], i["time"])]
+    if k < 2 or bad:
+        # nothing to join / no acquisition time: a ValueError is expected
+        if exc is not None and exc.startswith("ValueError"):
+            if os.path.exists(path_out) or os.path.exists(path_out + "~"):
+                return "join raised %s but left a file behind" % exc
+            return None
+        return ("join of %d input(s)%s did not raise ValueError (%s)" % (
+            k, " with date/time %r" % [(i["date"], i["time"]) for i in bad]
+            if bad else "", exc or "it produced a file"))
     acq = [acq_seconds(i) for i in inputs]
     order = sorted(range(k), key=lambda i: (acq[i], inputs[i]["run"]))
     if exc is not None:
@@ -605,7 +778,10 @@ def join_oracle(inputs, infos, order_impl_unused, path_out, exc,
             want = np.concatenate(parts)
             if f == "index":
                 want = np.arange(1, ntot + 1)
-            have = feature_array(ds, f)
+            try:
+                have = feature_array(ds, f)
+            except ValueError as e:
+                return "feature %s of the joined file: %s" % (f, e)
             if f in NONSCALAR:
                 same = bool(np.array_equal(np.asarray(have), want))
             else:
@@ -629,6 +805,12 @@ def join_oracle(inputs, infos, order_impl_unused, path_out, exc,
                     return "log %s of input %d changed" % (name, j)
         if "dclab-join" not in outlogs:
             return "log dclab-join missing"
+        outtabs = {kk: table_dict(ds.tables[kk]) for kk in ds.tables.keys()}
+        for pos, j in enumerate(order):
+            t = tables_retained(outtabs, "src-#%d_" % (pos + 1),
+                                infos[j].get("tables", {}))
+            if t:
+                return "input %d: %s" % (j, t)
         # metadata: those of the earliest input, run index 1, event count
         exp = ds.config["experiment"]
         e0 = inputs[order[0]]
@@ -662,7 +844,9 @@ def exec_join(case, wd):
         wd, "%s.rtdc" % inp.get("fname", "in%d" % i)), inp)
         for i, inp in enumerate(inputs)]
     infos = [read_dataset(p) for p in paths]
-    coq = common.clist([render_meas(i, f) for i, f in zip(inputs, infos)])
+    nomodel = bool(case.get("nomodel"))
+    coq = None if nomodel else common.clist(
+        [render_meas(i, f) for i, f in zip(inputs, infos)])
     path_out = os.path.join(wd, "out.rtdc")
     exc = None
     try:
@@ -670,16 +854,33 @@ def exec_join(case, wd):
     except Exception as e:
         exc = "%s: %s" % (type(e).__name__, str(e)[:160])
         ename = type(e).__name__
+    fail = join_oracle(inputs, infos, None, path_out, exc)
+    finding = None
     if exc is None:
         # order as observed: the command log lists the inputs as sorted
-        order = observed_order(path_out, paths)
-        impl = encode_joined(path_out, order)
+        order = observed_order(path_out, paths, inputs)
+        try:
+            impl = None if nomodel else encode_joined(path_out, order)
+        except Exception as e:
+            impl = [8]           # the output cannot be read consistently
+            if fail is None:
+                fail = "joined file unreadable: %r" % (e,)
     else:
         impl = [ERRCODE.get(ename, 9)]
         if os.path.exists(path_out + "~"):
             exc += " (temporary file left behind)"
-    fail = join_oracle(inputs, infos, None, path_out, exc)
-    acq = [acq_seconds(i) for i in inputs]
+    if fail is not None and exc is None and trace_keys_differ(infos):
+        # known finding: trace channels that are not in every input are
+        # written for some inputs only (trace datasets of unequal length)
+        with __import__("dclab").new_dataset(path_out) as dj:
+            if "trace" in dj.features_innate and len(set(
+                    len(dj["trace"][kk]) for kk in dj["trace"].keys())) > 1:
+                finding = FIND_TRACE_KEYS
+                nomodel = True
+    try:
+        acq = [acq_seconds(i) for i in inputs]
+    except ValueError:
+        acq = list(range(len(inputs)))
     nontrivial = len(set(acq)) > 1 or \
         len(set(tuple(sorted(f["innate"])) for f in infos)) > 1
     tags = ["join:k=%d" % len(inputs)]
@@ -697,29 +898,95 @@ def exec_join(case, wd):
     if any(set(f["avail"]) - set(f["innate"]) - {"index"} for f in infos):
         tags.append("join:computable-features")
     tags.append("join:" + ("ok" if exc is None else impl and "error-%d" % impl[0]))
-    return dict(impl=impl, coq=coq, fn="join_flat", fail=fail, finding=None,
-                nontrivial=nontrivial, tags=tags)
+    extra = None
+    if exc is None and all("trace" in f["innate"] for f in infos):
+        # rows per trace channel (read with h5py: the datasets may differ in
+        # length) against Model/C09.v:trace_lengths, inputs in output order
+        import h5py
+        with h5py.File(path_out, "r") as h5:
+            if "trace" in h5["events"]:
+                got = []
+                for kk in sorted(h5["events/trace"].keys(),
+                                 key=TRACE_KEYS.index):
+                    got += [TRACE_KEYS.index(kk),
+                            int(h5["events/trace"][kk].shape[0])]
+                rend = common.clist(["(%d, %s)" % (
+                    infos[j]["n"], zl([TRACE_KEYS.index(kk)
+                                       for kk in infos[j]["trace_keys"]]))
+                    for j in order])
+                extra = dict(fn="trace_len_flat", coq=rend, impl=got)
+    if any(i.get("tables") for i in inputs):
+        tags.append("join:tables")
+    if trace_keys_differ(infos):
+        tags.append("join:trace-channels-differ")
+    if nomodel:
+        tags.append("join:oracle-only")
+    return dict(impl=None if nomodel else impl, coq=None if nomodel else coq,
+                fn=None if nomodel else "join_flat", fail=fail,
+                finding=finding, nontrivial=nontrivial, tags=tags, extra=extra)
 
 
-def observed_order(path_out, paths):
-    """positions of the inputs in the order join used them (dclab-join log)"""
+def observed_order(path_out, paths, inputs=None):
+    """positions of the inputs in the order join used them (dclab-join log);
+    if that log cannot be interpreted (another format): the chronological
+    order the data are checked against anyway"""
     import dclab
-    with dclab.new_dataset(path_out) as ds:
-        data = json.loads("\n".join(ds.logs["dclab-join"]))
-    names = [os.path.basename(p) for p in paths]
-    files = sorted(data["files"], key=lambda d: d["index"])
-    return [names.index(d["name"]) for d in files]
+    try:
+        with dclab.new_dataset(path_out) as ds:
+            data = json.loads("\n".join(ds.logs["dclab-join"]))
+        names = [os.path.basename(p) for p in paths]
+        files = sorted(data["files"], key=lambda d: d["index"])
+        return [names.index(d["name"]) for d in files]
+    except Exception:
+        if inputs is None:
+            return list(range(len(paths)))
+        acq = [acq_seconds(i) for i in inputs]
+        return sorted(range(len(inputs)),
+                      key=lambda i: (acq[i], inputs[i]["run"]))
 
 
 # --------------------------------------------------------------------------
 # split
 # --------------------------------------------------------------------------
 def split_skips(case):
-    inp = case["input"]
-    img = inp["feats"].get("image")
-    s0 = bool(case["initial"] and img is not None and img[0] == 0)
-    s1 = bool(case["final"] and img is not None and img[-1] == 0)
+    """which boundary events dclab-split documents to skip: the first one if
+    its image or its contour is entirely zero, the last one if its image is
+    entirely zero (evaluated on the generated data, not through dclab)"""
+    import numpy as np
+    feats = case["input"]["feats"]
+    img = feats.get("image")
+    cnt = feats.get("contour")
+    # a stored contour; a contour computed from one of the generated
+    # (rectangular, non-empty) masks has non-zero coordinates
+    cnt0_zero = cnt is not None and bool(np.all(contour_of(cnt[0]) == 0))
+    img0_zero = img is not None and bool(np.all(image_of(img[0]) == 0))
+    imgl_zero = img is not None and bool(np.all(image_of(img[-1]) == 0))
+    s0 = bool(case.get("initial") and (cnt0_zero or img0_zero))
+    s1 = bool(case.get("final") and imgl_zero)
     return s0, s1
+
+
+def render_events(path, n):
+    """the events as skip_empty_image_events sees them (read from the input
+    through dclab): pixels of the first and last image, coordinates of the
+    first contour (stored or computed); inner events carry a placeholder"""
+    import numpy as np
+    import dclab
+    with dclab.new_dataset(path) as ds:
+        has_img = "image" in ds
+        has_cnt = "contour" in ds
+        px = {}
+        if has_img:
+            for i in {0, n - 1}:
+                px[i] = [int(v) for v in np.asarray(ds["image"][i]).ravel()]
+        c0 = [int(v) for v in np.asarray(ds["contour"][0]).ravel()] \
+            if has_cnt else []
+    evs = []
+    for i in range(n):
+        evs.append("(%d, (%s, %s), (%s, %s))" % (
+            i, common.blit(has_img), zl(px.get(i, [1])),
+            common.blit(has_cnt), zl(c0 if i == 0 else [1])))
+    return "[" + "; ".join(evs) + "]"
 
 
 def split_has_empty_part(case):
@@ -773,10 +1040,8 @@ def exec_split(case, wd):
     outdir = os.path.join(wd, "parts")
     os.makedirs(outdir)
     n, k = inp["n"], case["k"]
-    img = inp["feats"].get("image")
-    events = "[" + "; ".join("(%d, %s)" % (i, common.blit(
-        img is not None and img[i] == 0)) for i in range(n)) + "]"
-    coq = "(%s, %d, %s, %s)" % (events, k, common.blit(case["initial"]),
+    coq = "(%s, %d, %s, %s)" % (render_events(path, n), k,
+                                 common.blit(case["initial"]),
                                  common.blit(case["final"]))
     exc = None
     fail = None
@@ -788,10 +1053,9 @@ def exec_split(case, wd):
                       ret_out_paths=True)
     except Exception as e:
         exc = "%s: %s" % (type(e).__name__, str(e)[:160])
-        if isinstance(e, ValueError) and "Empty data object" in str(e):
-            impl = [1]
-        else:
-            impl = [9]
+        # the export of an event-less part fails with a ValueError (the
+        # message is not part of the judgement)
+        impl = [1] if isinstance(e, ValueError) else [9]
     if exc is not None:
         left = [f for f in os.listdir(outdir) if f.endswith("~")]
         fail = "split(N=%d, split_events=%d) raised %s%s" % (
@@ -806,9 +1070,11 @@ def exec_split(case, wd):
             and not (s1 and j == n - 1)]
     impl = [0, len(paths)]
     collected = {f: [] for f in info["innate"]}
+    finding = None
     for pi, pp in enumerate(paths):
         with dclab.new_dataset(pp) as ds:
-            ids = [int(v) for v in ds["userdef1"][:]]
+            empty = "userdef1" not in ds.features_innate
+            ids = [] if empty else [int(v) for v in ds["userdef1"][:]]
             impl += [len(ids)] + ids
             # sample name: "<sample> i/num_files"
             sname = str(ds.config["experiment"].get("sample", ""))
@@ -825,6 +1091,13 @@ def exec_split(case, wd):
                                                  len(paths)))
             # the mapped basin back to the input: part event i is input
             # event basinmap0[i]; features read through the basin agree
+            if empty:
+                # a file without events: usable by nothing (join refuses it)
+                if fail is None:
+                    fail = "part %d of %d holds no events" % (pi + 1, len(paths))
+                    if split_has_empty_part(case):
+                        finding = FIND_EMPTY_PART
+                continue
             if fail is None:
                 fail = check_basin(ds, ids, info, pi)
             if len(ds) > k and fail is None:
@@ -846,7 +1119,13 @@ def exec_split(case, wd):
                 if fail is None and list(ds.logs["src_" + name]
                                          if "src_" + name in ds.logs else []) != lines:
                     fail = "part %d: log %s not retained" % (pi + 1, name)
-    if fail is None:
+            if fail is None and info["tables"]:
+                t = tables_retained({kk: table_dict(ds.tables[kk])
+                                     for kk in ds.tables.keys()}, "src_",
+                                    info["tables"])
+                if t:
+                    fail = "part %d: %s" % (pi + 1, t)
+    if fail is None or finding is not None:
         for f in info["innate"]:
             if f == "index":
                 continue
@@ -856,6 +1135,7 @@ def exec_split(case, wd):
                 fail = ("feature %s: the parts together hold %s, the input "
                         "(without skipped boundary events) %s" % (
                             f, _short(have), _short(want)))
+                finding = None
                 break
     nparts_expected = -(-n // k)
     tags = ["split:parts=%d" % min(len(paths), 5)]
@@ -869,7 +1149,17 @@ def exec_split(case, wd):
         tags.append("split:k-does-not-divide-N")
     if k == 1:
         tags.append("split:k=1")
-    return dict(impl=impl, coq=coq, fn="split_flat", fail=fail, finding=None,
+    feats = inp["feats"]
+    if "image" in feats and any(v < 0 for v in (feats["image"][0],
+                                                feats["image"][-1])):
+        tags.append("split:boundary-image-partially-zero")
+    if "contour" in feats and feats["contour"][0] <= 0:
+        tags.append("split:first-contour-with-zeros")
+    if "mask" in feats and "contour" not in feats:
+        tags.append("split:contour-computed-from-mask")
+    if finding:
+        tags.append("split:event-less-part")
+    return dict(impl=impl, coq=coq, fn="split_flat", fail=fail, finding=finding,
                 nontrivial=(len(paths) > 1 or s0 or s1), tags=tags,
                 nparts_expected=nparts_expected)
 
@@ -954,20 +1244,30 @@ def exec_joinsplit(case, wd):
     outdir = os.path.join(wd, "parts")
     os.makedirs(outdir)
     n, k = inp["n"], case["k"]
+    initial, final = bool(case.get("initial")), bool(case.get("final"))
+    s0, s1 = split_skips(case)
     # the model is given what join sees of the *original* measurement; the
     # split of the columns is part of the model (split_meas)
     info_m = dict(info, logs={})
-    coq = "(%s, %d, %d)" % (render_meas(inp, info_m), n, k)
+    coq = "(%s, %d, %d, %s, %s)" % (render_meas(inp, info_m), n, k,
+                                    common.blit(s0), common.blit(s1))
     path_out = os.path.join(wd, "joined.rtdc")
     fail = None
+    tags = []
+    if s0 or s1:
+        tags.append("joinsplit:boundary-skipped")
     try:
         paths = split(path_in=path, path_out=outdir, split_events=k,
-                      skip_initial_empty_image=False,
-                      skip_final_empty_image=False, ret_out_paths=True)
-        if len(paths) < 2:
-            # join needs two inputs: nothing to compare
-            return dict(impl=None, coq=None, fn=None, fail=None, finding=None,
-                        nontrivial=False, tags=["joinsplit:single-part"])
+                      skip_initial_empty_image=initial,
+                      skip_final_empty_image=final, ret_out_paths=True)
+    except Exception as e:
+        fail = "split(N=%d, split_events=%d) raised %s: %s" % (
+            n, k, type(e).__name__, str(e)[:160])
+        finding = FIND_EMPTY_PART if (isinstance(e, ValueError) and
+                                      split_has_empty_part(case)) else None
+        return dict(impl=None, coq=None, fn=None, fail=fail, finding=finding,
+                    nontrivial=True, tags=tags + ["joinsplit:split-error"])
+    try:
         ren = case.get("rename") or []
         if len(ren) == len(paths):
             # the parts, renamed so that their names are not in order
@@ -979,44 +1279,67 @@ def exec_joinsplit(case, wd):
             paths = newp
         join(paths_in=[str(p) for p in paths], path_out=path_out)
     except Exception as e:
+        code = ERRCODE.get(type(e).__name__, 9)
+        if len(paths) < 2 and isinstance(e, ValueError):
+            # a single part: join refuses fewer than two inputs
+            return dict(impl=[code], coq=coq, fn="join_split_flat", fail=None,
+                        finding=None, nontrivial=False,
+                        tags=tags + ["joinsplit:single-part"])
         fail = "join(split(ds, %d)) raised %s: %s" % (
             k, type(e).__name__, str(e)[:160])
-        return dict(impl=[ERRCODE.get(type(e).__name__, 9)], coq=coq,
-                    fn="join_split_flat", fail=fail, finding=None,
-                    nontrivial=True, tags=["joinsplit:error"])
+        if split_has_empty_part(case):
+            # an event-less part (finding): join cannot process it
+            return dict(impl=None, coq=None, fn=None, fail=fail,
+                        finding=FIND_EMPTY_PART, nontrivial=True,
+                        tags=tags + ["joinsplit:event-less-part"])
+        return dict(impl=[code], coq=coq, fn="join_split_flat", fail=fail,
+                    finding=None, nontrivial=True,
+                    tags=tags + ["joinsplit:error"])
+    if split_has_empty_part(case):
+        # join went through although a part holds no events: judged by the
+        # oracle below, outside the model
+        coq = None
     order = observed_order(path_out, [str(p) for p in paths])
     impl = encode_joined(path_out, order)
     # the split parts carry logs (src_*, dclab-split...) the model of the
-    # original measurement does not know about: compare the log *count* only
-    # through the oracle; drop the per-source logs from the encoding
+    # original measurement does not know about: drop the per-source logs
     impl = strip_source_logs(impl)
+    keep = [j for j in range(n) if not (s0 and j == 0)
+            and not (s1 and j == n - 1)]
+    windows = [[j for j in range(a, min(a + k, n)) if j in keep]
+               for a in range(0, n, k)]
     with dclab.new_dataset(path_out) as dj:
         jf = sorted(f for f in dj.features_innate if f in FID)
         if jf != sorted(info["innate"]):
             fail = "joined parts have features %s, the original %s" % (
                 jf, sorted(info["innate"]))
-        elif len(dj) != n:
-            fail = "joined parts have %d events, the original %d" % (len(dj), n)
+        elif len(dj) != len(keep):
+            fail = "joined parts have %d events, the original %d (%d " \
+                   "boundary events skipped)" % (len(dj), n, n - len(keep))
         elif str(dj.config["experiment"].get("sample")) != "%s 1/%d" % (
                 info["sample"], len(paths)):
             fail = "sample of the joined parts is %r" % (
                 dj.config["experiment"].get("sample"),)
-        elif dj.config["experiment"].get("event count") != n:
+        elif dj.config["experiment"].get("event count") != len(keep):
             fail = "event count of the joined parts is %r, not %d" % (
-                dj.config["experiment"].get("event count"), n)
+                dj.config["experiment"].get("event count"), len(keep))
         else:
             for f in info["innate"]:
-                want = np.asarray(info["raw"][f])
+                orig = np.asarray(info["raw"][f])
+                want = orig[keep]
                 have = feature_array(dj, f)
+                if f == "index":
+                    want = np.arange(1, len(keep) + 1)
                 if f == "index_online":
                     # documented rule: each later part is shifted by the last
                     # value written so far + 1
                     parts, last = [], None
-                    for a in range(0, n, k):
-                        col = want[a:a + k]
+                    for w in windows:
+                        col = orig[w]
                         if last is not None:
                             col = col + (last + 1)
-                        last = col[-1]
+                        if len(col):
+                            last = col[-1]
                         parts.append(col)
                     want = np.concatenate(parts)
                 if have.shape != want.shape or not np.array_equal(have, want):
@@ -1024,9 +1347,36 @@ def exec_joinsplit(case, wd):
                             "originally %s" % (f, k, _short(have),
                                                _short(want)))
                     break
-    return dict(impl=impl, coq=coq, fn="join_split_flat", fail=fail,
-                finding=None, nontrivial=True,
-                tags=["joinsplit:parts=%d" % min(len(paths), 5)])
+    finding = FIND_EMPTY_PART if (fail and split_has_empty_part(case)) else None
+    return dict(impl=impl if coq else None, coq=coq,
+                fn="join_split_flat" if coq else None, fail=fail,
+                finding=finding, nontrivial=True,
+                tags=tags + ["joinsplit:parts=%d" % min(len(paths), 5)])
+
+
+def _log_section(flat):
+    """index of the log count in an enc_join encoding"""
+    p = 1
+    p += 1 + flat[p]
+    nf = flat[p]
+    p += 1 + nf
+    for _ in range(nf):
+        p += 2 + flat[p + 1]
+    return p
+
+
+def drop_export_log(flat):
+    """remove the pair (0, 0) (dclab-export_* log) from a model encoding"""
+    if not flat or flat[0] != 0:
+        return flat
+    p = _log_section(flat)
+    nl = flat[p]
+    pairs = [(flat[p + 1 + 2 * i], flat[p + 2 + 2 * i]) for i in range(nl)]
+    keep = [q for q in pairs if q != (0, 0)]
+    out = flat[:p] + [len(keep)]
+    for a, b in keep:
+        out += [a, b]
+    return out + flat[p + 1 + 2 * nl:]
 
 
 def strip_source_logs(flat):
@@ -1059,7 +1409,7 @@ def strip_source_logs(flat):
 # Python semantics assumed by Common/PyList.v, checked against the interpreter
 # --------------------------------------------------------------------------
 def gen_pysem_case(rng):
-    tag = rng.choice([0, 0, 0, 1, 2, 2, 3, 3, 4, 4, 5, 6, 6])
+    tag = rng.choice([0, 0, 0, 1, 2, 2, 3, 3, 4, 4, 5, 6, 6, 6, 7, 7])
     if tag in (0, 1):
         n = rng.randint(0, 9)
         l1 = rng.sample(range(1, 30), n)
@@ -1089,6 +1439,12 @@ def gen_pysem_case(rng):
                                    "1999-03-01", "2026-10-01"])
         tm = "%02d:%02d:%02d%s" % (rng.randint(0, 23), rng.randint(0, 59),
                                    rng.randint(0, 59), rng.choice(FRACS))
+        if rng.random() < 0.3:
+            date, tm = rng.choice(MALFORMED)
+        if tag == 7:
+            l1 = [rng.randint(0, 12) for _ in range(rng.randint(0, 12))]
+            l2 = []
+            return dict(kind="pysem", tag=tag, l1=l1, l2=l2)
         l1 = [ord(c) for c in date]
         l2 = [ord(c) for c in tm]
     return dict(kind="pysem", tag=tag, l1=l1, l2=l2)
@@ -1119,15 +1475,25 @@ def exec_pysem(case):
         return [round(l1[0] / l1[1])]
     if tag == 5:
         return [ord(c) for c in str(l1[0])]
-    inp = dict(date="".join(chr(c) for c in l1),
-               time="".join(chr(c) for c in l2))
+    if tag == 7:
+        return sorted(set(l1))
+    # dclab's own get_acquisition_time (strptime + mktime + float)
     _utc()
-    etime = inp["time"]
-    st = time.strptime(inp["date"] + etime[:8], "%Y-%m-%d%H:%M:%S")
-    t = time.mktime(st)
-    if len(etime) > 8:
-        t += float(etime[8:])
-    return [int(t * 8)]
+    try:
+        from dclab.cli.task_join import get_acquisition_time
+    except ImportError:          # the helper was renamed: same computation
+        def get_acquisition_time(config):
+            etime = config["experiment"]["time"]
+            st = time.strptime(config["experiment"]["date"] + etime[:8],
+                               "%Y-%m-%d%H:%M:%S")
+            return time.mktime(st) + (float(etime[8:]) if len(etime) > 8 else 0)
+    cfg = {"experiment": {"date": "".join(chr(c) for c in l1),
+                          "time": "".join(chr(c) for c in l2)}}
+    try:
+        t = get_acquisition_time(cfg)
+    except ValueError:
+        return [1]
+    return [0, int(t * 8)]
 
 
 def render_pysem(case):
@@ -1222,6 +1588,8 @@ def run(run):
             run.oracle_failure(c, r["fail"], r["finding"])
         if r["fn"] is not None:
             by_fn.setdefault(r["fn"], []).append((c, r))
+        if r.get("extra"):
+            by_fn.setdefault(r["extra"]["fn"], []).append((c, r["extra"]))
     for c in py_cases:
         impl = exec_pysem(c)
         run.record_case(c, len(c["l1"]) > 1, sample=False)
@@ -1245,6 +1613,8 @@ def run(run):
         for (c, r), m in zip(by_fn[fn], model):
             run.corr_checked += 1
             mm = strip_source_logs(m) if fn == "join_split_flat" else m
+            if fn in ("join_flat", "join_split_flat"):
+                mm = drop_export_log(mm)
             if mm != r["impl"]:
                 run.mismatch(c, mm, r["impl"])
 
